@@ -32,6 +32,8 @@ type FuncSpec struct {
 	Pkg      string
 	Name     string
 	Requires []Clause
+	CallPre  map[string][]Clause // extra obligations at the call sites of a callee inside this function
+	Physical []Clause // free preconditions: assumed on both sides (event counters below 2^49, stored objects exist)
 	Ensures  []Clause
 	Modifies []Clause
 	ModAll   bool
@@ -71,11 +73,12 @@ type Specs struct {
 	Ghosts   map[string]*GhostField
 	Nullable map[string]bool // "pkgpath.Type.field"
 	UFs      map[string]*UFDecl
+	GhostVars map[string]string // global ghost variables: name -> type
 	Files    []string
 }
 
 func newSpecs() *Specs {
-	return &Specs{Funcs: map[string]*FuncSpec{}, SpecFns: map[string]*SpecFn{}, Ghosts: map[string]*GhostField{}, Nullable: map[string]bool{}, UFs: map[string]*UFDecl{}}
+	return &Specs{Funcs: map[string]*FuncSpec{}, SpecFns: map[string]*SpecFn{}, Ghosts: map[string]*GhostField{}, Nullable: map[string]bool{}, UFs: map[string]*UFDecl{}, GhostVars: map[string]string{}}
 }
 
 var allSafetyKinds = []string{"bounds", "nil", "assert", "div0", "shift", "makelen", "panic", "mapnil"}
@@ -144,6 +147,12 @@ func (s *Specs) loadSpecFile(path, pkgPath string, assumed bool) error {
 		case "ghost":
 			// ghost field Owner.name type
 			w2, r2 := splitWord(rest)
+			if w2 == "var" {
+				nm, ty := splitWord(r2)
+				s.GhostVars[nm] = strings.TrimSpace(ty)
+				cur = nil
+				continue
+			}
 			if w2 != "field" {
 				return fmt.Errorf("%s: ghost field expected", where)
 			}
@@ -246,6 +255,27 @@ func (fs *FuncSpec) addDirective(word, rest, where string) error {
 			return err
 		}
 		fs.Requires = append(fs.Requires, c)
+	case "callpre":
+		// callpre <callee short name>: expr
+		i := strings.Index(rest, ": ")
+		if i < 0 {
+			return fmt.Errorf("callpre <callee>: <expr>")
+		}
+		c, err := mkClause(strings.TrimSpace(rest[i+2:]), where)
+		if err != nil {
+			return err
+		}
+		if fs.CallPre == nil {
+			fs.CallPre = map[string][]Clause{}
+		}
+		name := strings.TrimSpace(rest[:i])
+		fs.CallPre[name] = append(fs.CallPre[name], c)
+	case "physical":
+		c, err := mkClause(rest, where)
+		if err != nil {
+			return err
+		}
+		fs.Physical = append(fs.Physical, c)
 	case "ensures":
 		c, err := mkClause(rest, where)
 		if err != nil {
